@@ -30,6 +30,7 @@ func newWorkload(g *Gen) *Workload {
 	w := &Workload{g: g, r: g.rWork, movedStake: map[string]bool{}}
 	w.ops = map[string]func(h int64) (*Intent, bool){
 		"tip":             w.opTip,
+		"split_reports":   w.opSplitReports,
 		"create_reporter": w.opCreateReporter,
 		"select_reporter": w.opSelectReporter,
 		"switch_reporter": w.opSwitchReporter,
@@ -145,7 +146,7 @@ func (w *Workload) intentsFor(h int64, p *HeightPlan) []Delivery {
 		w.decorate(in)
 		out = append(out, w.deliveryFor(in, p))
 		for _, x := range w.extra {
-			if w.busy[x.Actor] || !w.usable(x.Actor) {
+			if !x.Follow && (w.busy[x.Actor] || !w.usable(x.Actor)) {
 				continue
 			}
 			w.busy[x.Actor] = true
